@@ -5,6 +5,7 @@ Property theorems only (helper lemmas: KlogV/Lemmas/Strip.lean).
 import KlogV.Lemmas.Strip
 import KlogV.Gen.Themes
 import KlogV.Props.Rx.Ansi
+import KlogV.Props.Rx.Model
 namespace KlogV.C18
 
 /-- `s` is a concatenation of complete SGR sequences (`ESC [ [0-9;]+ m`). -/
